@@ -273,7 +273,7 @@ class Dofs:
         offset += element.nodal_dofs * topo.nvertices
 
         # edge dofs
-        if element.dim == 3 and element.edge_dofs > 0:
+        if element.refdom.dim() == 3 and element.edge_dofs > 0:
             self.edge_dofs = np.reshape(
                 np.arange(element.edge_dofs * topo.nedges,
                           dtype=np.int32),
@@ -311,7 +311,7 @@ class Dofs:
             ))
 
         # edge dofs
-        if element.dim == 3 and element.edge_dofs > 0:
+        if element.refdom.dim() == 3 and element.edge_dofs > 0:
             for itr in range(topo.t2e.shape[0]):
                 self.element_dofs = np.vstack((
                     self.element_dofs,
@@ -319,7 +319,7 @@ class Dofs:
                 ))
 
         # facet dofs
-        if element.dim >= 2 and element.facet_dofs > 0:
+        if element.refdom.dim() >= 2 and element.facet_dofs > 0:
             for itr in range(topo.t2f.shape[0]):
                 self.element_dofs = np.vstack((
                     self.element_dofs,
